@@ -115,6 +115,9 @@ def _pwm_to_mapping(log_pwm, bin_size):
 		idx = int_log_pwm[i, 0] - smallest
 		old_logpdf[idx] = logaddexp2(old_logpdf[idx], log_bg)
 
+	for j in range(largest - smallest + 1):
+		logpdf[j] = old_logpdf[j]
+
 	for i in range(1, l):
 		for j in range(largest - smallest + 1):
 			logpdf[j] = -numpy.inf
